@@ -143,7 +143,7 @@ def finish (a : Acc) : Bool × Bool × List String :=
     else match firstDiff impl model with
       | none => (true, [])
       | some (i, x, y) => (false, [s!"obs#{i} impl[{x}] model[{y}]"])
-  let bad := violations a.n cfg.tol cfg.subTimeout a.implEv.toList
+  let bad := violations a.n marginSecs cfg.subTimeout a.implEv.toList
   let judgeOk := a.parseOk && bad.isEmpty
   (corr.1 && a.parseOk, judgeOk, (bad.map (s!"judge:{·}")) ++ corr.2 ++ a.notes)
 
